@@ -25,9 +25,9 @@
     4-word skip), with `_concrete` versions from `Pre … .scan`; hypothesis `preScan`: junk words
     below 4096 that are not valid instructions, inside the 160/40-word (MIPS: 1024-byte) window,
     then a valid instruction; zero words at the end.
-  * canonical STACK CFI chains — the precondition `preCfi` is defined and evaluated on every
-    generated case, the tie compares `walk_stack`, the generated chain and the model for all seven
-    context kinds/modes, but the induction theorem is only stated (comment `walk_layout_cfi`).
+  * canonical STACK CFI chains — PROVED for chains of ANY depth on all seven context kinds/modes:
+    `walk_layout_cfi` in `MdProofs/C04Cfi.lean` (hypothesis `Pre … .cfi` = `preCfi`, evaluated on
+    every generated `cfi` case).
   * technique changing from frame to frame — the model (`mkEnvW`, MdModel/Walk/WinWalk.lean) and the
     precondition `PreW` (MdModel/Walk/LayoutMixed.lean) cover all four techniques on all
     architectures and are evaluated / compared on every generated `mixed` and `win` case. PROVED:
@@ -318,9 +318,7 @@ theorem walk_layout_scan'_concrete (a : Arch) (os : Os) (w : World) (mem : Mem) 
    found through STACK WIN records, and `walk_layout_mixed_x86_partial` — x86, techniques win / fp /
    scan — are theorems now: MdProofs/C04Win.lean.)
 
-  theorem walk_layout_cfi (a : Arch) (os : Os) (w : World) (mem : Mem) (ctx : Ctx) (chain : List Exp) :
-      Pre w (mkEnv a os w mem) a os .cfi mem ctx chain = true →
-      walk (mkEnv a os w mem) (some mem) ctx = context frame :: chain.map (cfi frame of e)
+  (`walk_layout_cfi` is no longer here: it is a theorem of `MdProofs/C04Cfi.lean`.)
 -/
 
 /-! ## non-vacuity: a two-call frame-pointer chain on x86-64 satisfying `preFp` -/
